@@ -17,6 +17,33 @@ impl<S, B> BufRecvStream<S, B> {
         ensures r.buf@ =~= Seq::<u8>::empty(), r.buf.wf(), r.eos == false, r.stream == stream, // [C19.bufrecv.new]
 //@end
 }
+#[verifier::external_body] pub struct IoError { x: u8 }
+// ASSUMED: h3/src/stream.rs convert_to_std_io_error = std::io::Error::other(e)
+#[verifier::external_body] pub fn convert_to_std_io_error(error: StreamErrorIncoming) -> IoError { unimplemented!() }
+// `Poll<Result<T, E>>::map_err(convert_to_std_io_error)` (std definition; the rewriter does not look inside `ready!(..)`)
+pub fn vp_poll_map_io(p: Poll<Result<bool, StreamErrorIncoming>>) -> (r: Poll<Result<bool, IoError>>)
+    ensures match p { Poll::Ready(Ok(b)) => r == Poll::<Result<bool, IoError>>::Ready(Ok(b)), Poll::Ready(Err(_)) => r matches Poll::Ready(Err(_)), Poll::Pending => r is Pending },
+{
+    match p { Poll::Ready(Ok(b)) => Poll::Ready(Ok(b)), Poll::Ready(Err(e)) => Poll::Ready(Err(convert_to_std_io_error(e))), Poll::Pending => Poll::Pending }
+}
+// ASSUMED (std): `dst[..len].copy_from_slice(src)` — panics unless src.len() == len <= dst.len()
+#[verifier::external_body]
+pub fn vp_copy_prefix(dst: &mut [u8], len: usize, src: &Bytes)
+    requires len <= old(dst)@.len(), src@.len() == len,
+    ensures final(dst)@.len() == old(dst)@.len(), final(dst)@.take(len as int) == src@, final(dst)@.skip(len as int) == old(dst)@.skip(len as int),
+{ unimplemented!() }
+// ASSUMED (tokio::io::ReadBuf): `remaining()` = room left, `put_slice` appends to the filled part (panics without room)
+#[verifier::external_body] pub struct ReadBuf { x: u8 }
+impl ReadBuf {
+    pub uninterp spec fn filled(&self) -> Seq<u8>;
+    pub uninterp spec fn room(&self) -> nat;
+    #[verifier::external_body] pub fn remaining(&self) -> (r: usize) ensures r == self.room() { unimplemented!() }
+    #[verifier::external_body]
+    pub fn put_slice(&mut self, src: &Bytes)
+        requires src@.len() <= old(self).room(),
+        ensures final(self).filled() == old(self).filled() + src@, final(self).room() == old(self).room() - src@.len(),
+    { unimplemented!() }
+}
 impl<S: RecvStream, B> BufRecvStream<S, B> {
     // what is buffered is the not-yet-consumed tail of what the transport has delivered
     pub open spec fn wf(&self) -> bool {
@@ -154,6 +181,85 @@ impl<S: RecvStream, B> BufRecvStream<S, B> {
             assert(d.skip(d.len() as int) =~= Seq::<u8>::empty());
         }
 //@end
+// `impl futures_util::io::AsyncRead for BufRecvStream` (the reader WebTransport applications use).  Dropped by R0: the pin
+// (`Pin<&mut Self>` => `&mut self`; BufRecvStream is Unpin), the slice copy `buf[..len].copy_from_slice(&chunk)` replaced
+// by the shim `vp_copy_prefix` with exactly that meaning.  std::io::Error is opaque.
+//@extract h3/src/stream.rs :: impl futures_util::io::AsyncRead for BufRecvStream<S, B> :: fn poll_read
+//@external_body_if ASSUME_UNIT_frames
+//@rename async_poll_read
+//@subst "mut self: Pin<&mut Self>" => "&mut self"
+//@subst "let p = &mut *self;" => "let p = self;"
+//@subst "buf[..len].copy_from_slice(&chunk);" => "vp_copy_prefix(buf, len, &chunk);"
+//@subst "Poll<futures_util::io::Result<usize>>" => "Poll<Result<usize, IoError>>"
+//@subst "p.poll_read(cx).map_err(convert_to_std_io_error)" => "vp_poll_map_io(p.poll_read(cx))"
+//@tag C19 C06
+//@ret r
+//@qconv 1r
+//@sig
+        requires old(self).wf(),
+        ensures final(self).wf(), final(self).stream.stops() == old(self).stream.stops(),
+            old(self).stream.delivered().is_prefix_of(final(self).stream.delivered()), final(buf)@.len() == old(buf)@.len(),
+            match r {
+                // n bytes copied: they are exactly the next n not-yet-consumed bytes of the stream, and they are consumed
+                Poll::Ready(Ok(n)) => n <= old(buf)@.len() && final(self).consumed() == old(self).consumed() + n
+                    && final(buf)@.take(n as int) == final(self).stream.delivered().subrange(old(self).consumed(), final(self).consumed())
+                    && final(buf)@.skip(n as int) == old(buf)@.skip(n as int)
+                    // 0 is answered only for an empty destination or at the end of the stream with nothing buffered
+                    && (n == 0 ==> old(buf)@.len() == 0 || (final(self).eos && final(self).buf@.len() == 0)), // [C19.raw.asyncread]
+                Poll::Ready(Err(_)) => final(self).consumed() == old(self).consumed() && final(buf)@ == old(buf)@,
+                Poll::Pending => final(self).consumed() == old(self).consumed() && final(buf)@ == old(buf)@ && old(self).buf@.len() == 0, // [C06.raw.pending]
+            },
+//@at "let chunk = p.buf_mut().take_chunk(buf.len());" before
+        let ghost mid = *p;
+//@at "let chunk = p.buf_mut().take_chunk(buf.len());" after
+        proof {
+            let d = mid.stream.delivered();
+            let b = mid.buf@;
+            let k = b.len() - p.buf@.len();
+            assert(b.take(k) =~= d.subrange(d.len() - b.len(), d.len() - b.len() + k));
+            assert(b.skip(k) =~= d.skip(d.len() - (b.len() - k)));
+        }
+//@end
+// `impl tokio::io::AsyncRead for BufRecvStream`: the same reader over tokio's `ReadBuf` (shim below: what has been filled
+// and how much room is left).  Same R0 drops as above.
+//@extract h3/src/stream.rs :: impl tokio::io::AsyncRead for BufRecvStream<S, B> :: fn poll_read
+//@external_body_if ASSUME_UNIT_frames
+//@rename tokio_poll_read
+//@subst "mut self: Pin<&mut Self>" => "&mut self"
+//@subst "let p = &mut *self;" => "let p = self;"
+//@subst "buf: &mut ReadBuf<'_>" => "buf: &mut ReadBuf"
+//@subst "Poll<futures_util::io::Result<()>>" => "Poll<Result<(), IoError>>"
+//@subst "p.poll_read(cx).map_err(convert_to_std_io_error)" => "vp_poll_map_io(p.poll_read(cx))"
+//@tag C19 C06
+//@ret r
+//@qconv 1r
+//@sig
+        requires old(self).wf(),
+        ensures final(self).wf(), final(self).stream.stops() == old(self).stream.stops(),
+            old(self).stream.delivered().is_prefix_of(final(self).stream.delivered()),
+            final(buf).filled().len() + final(buf).room() == old(buf).filled().len() + old(buf).room(),
+            match r {
+                // what was appended to the filled part is exactly the next not-yet-consumed bytes of the stream, and they are consumed
+                Poll::Ready(Ok(_)) => ({ let n = final(self).consumed() - old(self).consumed();
+                    &&& 0 <= n <= old(buf).room()
+                    &&& final(buf).filled() == old(buf).filled() + final(self).stream.delivered().subrange(old(self).consumed(), final(self).consumed())
+                    // nothing appended only for a full destination or at the end of the stream with nothing buffered
+                    &&& (n == 0 ==> old(buf).room() == 0 || (final(self).eos && final(self).buf@.len() == 0)) }), // [C19.raw.asyncread.tokio]
+                Poll::Ready(Err(_)) => final(self).consumed() == old(self).consumed() && final(buf).filled() == old(buf).filled(),
+                Poll::Pending => final(self).consumed() == old(self).consumed() && final(buf).filled() == old(buf).filled() && old(self).buf@.len() == 0, // [C06.raw.pending]
+            },
+//@at "let chunk = p.buf_mut().take_chunk(buf.remaining());" before
+        let ghost mid = *p;
+//@at "let chunk = p.buf_mut().take_chunk(buf.remaining());" after
+        proof {
+            let d = mid.stream.delivered();
+            let b = mid.buf@;
+            let k = b.len() - p.buf@.len();
+            assert(b.take(k) =~= d.subrange(d.len() - b.len(), d.len() - b.len() + k));
+            assert(b.skip(k) =~= d.skip(d.len() - (b.len() - k)));
+            assert(d.subrange(mid.consumed(), mid.consumed()) =~= Seq::<u8>::empty());
+        }
+//@end
 //@extract h3/src/stream.rs :: impl RecvStream for BufRecvStream<S, B> :: fn stop_sending
 //@external_body_if ASSUME_UNIT_frames
 //@rename raw_stop_sending
@@ -227,6 +333,7 @@ impl<S: RecvStream, B> FrameStream<S, B> {
 //@end
 
 //@extract h3/src/frame.rs :: impl FrameStream<S, B> :: fn poll_next
+//@attr #[verifier::rlimit(50)]
 //@external_body_if ASSUME_UNIT_frames
 //@tag C02 C03 C04 C06
 //@on R25
